@@ -155,6 +155,7 @@ func WriteTriangles(wg *sync.WaitGroup, triangles *[]*Triangle3) chan<- []*Trian
 		defer wg.Done()
 		// read triangles from the channel and append them to the slice
 		for ts := range c {
+			simYield("sdf.WriteTriangles", uint64(len(ts)))
 			for _, t := range ts {
 				*triangles = append(*triangles, t)
 			}
